@@ -135,6 +135,9 @@ class Sched(Engine):
                     yield c
 
     def judge_death(self, scenario, events, sig, code):
+        import signal as _sg
+        if sig not in (_sg.SIGSEGV, _sg.SIGBUS, _sg.SIGABRT, _sg.SIGILL, _sg.SIGFPE):
+            return None       # killed from outside (OOM killer, operator), or a plain exit: the run proves nothing
         begun = [e for e in events if e.get('begin')]
         last = begun[-1] if begun else {}
         what = f'signal:{sig}' if sig is not None else f'exit:{code}'
@@ -219,7 +222,7 @@ class _SState:
 
     def check_chunk(self, got, s, e, what):
         exp = self.model[s:e]
-        if type(got) is not np.ndarray:
+        if not isinstance(got, np.ndarray):
             raise Viol('sched.value', f'{what}:type:{type(got).__name__}', '')
         ok, why = D.arr_equal(got, exp)
         if not ok:
@@ -745,7 +748,7 @@ class Frames(Engine):
             if pos >= len(exp):
                 raise Viol('frames.iterchunks', 'extra_frame', f'more than {len(exp)}')
             f0, f1 = exp[pos]
-            if type(got) is not np.ndarray:
+            if not isinstance(got, np.ndarray):
                 raise Viol('frames.iterchunks', f'type:{type(got).__name__}', '')
             ok, why = D.arr_equal(got, model[f0:f1])
             if not ok:
